@@ -884,6 +884,10 @@ impl DirectAddrUpdateState {
                     crate::verif_hooks::pause::trace::event(|| "reported".to_string());
                     crate::verif_hooks::pause::gate::pass("direct_addr:reported").await;
                 }
+                // Release the net reporter before signalling: the actor reacts to the
+                // signal with `try_run`, which needs the lock to start an update that was
+                // requested while this run was in flight.
+                drop(net_reporter);
                 // mark run as finished
                 debug!("direct addr update done ({:?})", why);
                 run_done.send(()).await.ok();
